@@ -25,6 +25,20 @@ static void c03_compare(ExecCtx &c, const R &res, const Fn &expect, const char *
 #endif
 }
 
+// C03: a valid arithmetic call on one grid has to deliver its result; the only
+// exceptions that may escape are injected faults and the exact field's own
+// division by zero.
+static void c03_must_succeed(ExecCtx &c, bool valid, const char *site) {
+  if (!valid) return;
+  if (c.out.status == ST_BSPLINE || c.out.status == ST_OTHER_EXC) {
+    if (fault_fired()) return;
+    add_violation(c, "C03", "valid-call-threw",
+                  std::string(site) + " threw " + status_name(c.out.status) + " (code " + std::to_string(c.out.code) +
+                      ") for operands on one grid",
+                  site);
+  }
+}
+
 bool exec_arith(ExecCtx &c) {
   const Op &op = c.op;
   Pool &P = c.pool;
@@ -51,6 +65,7 @@ bool exec_arith(ExecCtx &c) {
 #endif
             auto finish = [&](auto &res) {
               c08_check(c, !same, true, distinct, site);
+              c03_must_succeed(c, same, site);
               if (!res) return;
 #ifdef SIM_EXACT
               if (same) {
@@ -137,6 +152,7 @@ bool exec_arith(ExecCtx &c) {
                 else x -= y;
               });
               c08_check(c, !same, true, distinct, site);
+              c03_must_succeed(c, same, site);
               if (out.status == ST_OK) {
                 out.obs = hmix(out.obs, hash_spline(x));
 #ifdef SIM_EXACT
@@ -181,6 +197,7 @@ bool exec_arith(ExecCtx &c) {
                 default: res.emplace(-x); break;
               }
             });
+            c03_must_succeed(c, true, site);
             if (res) {
 #ifdef SIM_EXACT
               Val f = op.kind == OP_P_NEG ? Val(-1) : op.kind == OP_P_DIV ? Val(Val(1) / s.raw()) : s.raw();
@@ -211,6 +228,7 @@ bool exec_arith(ExecCtx &c) {
               if (op.kind == OP_P_ISCALE) x *= s;
               else x /= s;
             });
+            c03_must_succeed(c, true, site);
             if (out.status == ST_OK) {
               out.obs = hmix(out.obs, hash_spline(x));
 #ifdef SIM_EXACT
@@ -275,6 +293,7 @@ bool exec_arith(ExecCtx &c) {
               else res.emplace(bspline::linearCombination(cs.begin(), cs.end(), sv.begin(), sv.end()));
             });
             if (!mismatch) c08_check(c, differ, true, distinct && !differ, "linearCombination");
+            c03_must_succeed(c, !differ && !mismatch, "linearCombination");
             if (res) {
 #ifdef SIM_EXACT
               if (!differ && !mismatch) c03_compare(c, *res, expect, "linear-combination-wrong", "linearCombination");
